@@ -111,7 +111,7 @@ def _usable(obs):
 
 def correspondence(ctx):
     res = CorrResult()
-    cases = [c["case"] for c in fc.load_corpus(ID)] + _cases(ctx, ctx.n(95, 1500))
+    cases = [c["case"] for c in fc.load_corpus(ID)] + _cases(ctx, ctx.n(95, 1100))
     terms, idx = [], []
     skipped = 0
     def take(c, obs, origin):
@@ -161,7 +161,7 @@ def correspondence(ctx):
             c["plot"] = True          # also draw the result and evaluate the fitted function again afterwards
         take(c, fc.run_case(c, observe_result=True), c)
     multis = [c for c in cases if c["kind"] == "multi"]
-    while len(multis) < ctx.n(8, 120):
+    while len(multis) < ctx.n(8, 80):
         m = fc.gen_multi(ctx.rng)
         if m:
             multis.append(m)
@@ -172,7 +172,7 @@ def correspondence(ctx):
         for c, obs in fc.run_multi(m):
             take(c, obs, m)
     hists = [c for c in cases if c["kind"] == "history"]
-    while len(hists) < ctx.n(10, 150):
+    while len(hists) < ctx.n(10, 100):
         h = fc.gen_history(ctx.rng)
         if h:
             hists.append(h)
